@@ -14,7 +14,7 @@ AST (JSON-able lists)
 Data: {"default": [(s, "p", o), ...], "named": {"g1": [...], "g2": [...]}}; predicates are names.
 Solutions are dicts var -> term; multisets are lists.
 """
-from rdflib import URIRef
+from rdflib import Literal, URIRef
 
 IRIS = {"p": URIRef("urn:p"), "q": URIRef("urn:q"), "r": URIRef("urn:r"),
         "g1": URIRef("urn:g1"), "g2": URIRef("urn:g2"), "g3": URIRef("urn:g3")}
@@ -214,7 +214,7 @@ class Ref:
             return False
         if k == "isIRI":
             a = self.ev(e[1], mu, active)
-            return not isinstance(a, bool)
+            return isinstance(a, URIRef)
         if k == "coalesce":
             for x in e[1:]:
                 try:
@@ -234,6 +234,10 @@ class Ref:
         v = self.ev(e, mu, active)
         if isinstance(v, bool):
             return v
+        if isinstance(v, Literal):
+            if v:  # numeric literal: EBV is value != 0 (only integer literals occur in the data)
+                return True
+            return False
         raise Err()  # EBV of an IRI is a type error
 
     def ebv_or_false(self, e, mu, active):
